@@ -85,7 +85,7 @@ def gen_cases(ctx, scale):
             bidx = r.below(1 << L)
             out.append((0, 'o2get %s %s %d %d %d %d %d' % (' '.join(map(str, sh)), ' '.join(map(str, hp)), full, bidx, L, newL, idx), None))
     # ---- LimP4 (hashCount 4 and 6)
-    for H in (4, 6):
+    for H in (4, 6, 8):
         for i in range(n // 2):
             L = rnd_L(r); h = rnd_hash(r, edges); ps = (L + 6) % 8; probe = rnd_probe(r, L, ps)
             s = [r.choice([255, r.below(128), r.below(256)]) for _ in range(H)]
@@ -148,7 +148,7 @@ def gen_cases(ctx, scale):
                 budget = r.choice([0, 1, 2, 3, r.below(nkeys + 1)])
             out.append((0, 'tbl2 %d %d %d %d %d %s %s' % (L, L1, L2, budget, len(rem), ' '.join(map(str, rem)), ' '.join(map(str, hs2))), None))
     # LimP4 table level (both hashCount builds): fill, remove, Reserve, compare every bucket incl. memPoolIndex / WasFull and the call count
-    for H in (4, 6):
+    for H in (4, 6, 8):
         for i in range(30 * scale):
             L = r.choice([0, 1, 2, 3, 4, 5, 2, 3]); L1 = min(11, L + r.choice([2, 2, 3, 4, 6, 7]))   # LimP4 tables of < 2^20 buckets grow by 2 doublings at least
             cap = (1 << L) * 2
@@ -273,8 +273,15 @@ def check_sets(ctx, cases, lines):
             bad.append((c, out, 'unparsable implementation output (crash?)'))
     return bad
 
+LOW32 = ('-DC12_LOWMEM', '-DMOMO_MEM_MANAGER_PTR_USEFUL_BIT_COUNT=32', '-no-pie')
+
 def build_harnesses(ctx):
+    """three builds: LimP4 hashCount 4 (64-bit PtrState), 6 (48-bit), 8 (32-bit: all momo memory from an mmap(MAP_32BIT)
+    arena, non-PIE, never sanitized because the sanitizer runtimes own the low address space)"""
     res = ctx.cxx_many([('harness.cpp', 'harness', ()), ('harness.cpp', 'harness48', ('-DMOMO_MEM_MANAGER_PTR_USEFUL_BIT_COUNT=48',))])
+    ctx.h8 = ctx.cxx('harness.cpp', 'harness32', LOW32, sanitize=False)
+    if ctx.h8 is None:
+        return None, None
     return res.get('harness'), res.get('harness48')
 
 def run_real(ctx, exe, lines, name):
@@ -290,7 +297,7 @@ def replay(ctx, rp):
     case = rp.get('case')
     if not case:
         print('replay has no concrete case (no-failing-input-found): broken stages were', list(rp.get('broken', {}).keys())); return 1
-    exe = h6 if rp.get('hashCount') == 6 else h4
+    exe = h6 if rp.get('hashCount') == 6 else (ctx.h8 if rp.get('hashCount') == 8 else h4)
     rc, lines, err = run_real(ctx, exe, [case], 'replay')
     out = lines[0] if lines else err
     print('case:', case, '\nimplementation:', out)
@@ -313,7 +320,7 @@ def run(ctx):
                     'metadata effect of BucketLimP4::AddCrt (validated against the real AddCrt on real pool memory: p4seq cases)']
     ctx.assumptions += ['size_t is 64 bit; logBucketCount <= 63 (for 58..63 the stored bits are the whole hash; such tables cannot be allocated, see NOTES.md)',
                         'growth is strict (newLogBucketCount > logBucketCount), as in HashSet::Reserve/pvAddGrow',
-                        'probe < bucket count (HashSet::pvAddNogrow throws otherwise); LimP4 hashCount in {4,6,8} (run: 4 and 6)',
+                        'probe < bucket count (HashSet::pvAddNogrow throws otherwise); LimP4 hashCount in {4,6,8} (all three are run: 64-, 48- and 32-bit BucketLimP4PtrState)',
                         'L1 hash-table statements (Find after growth for the whole container) are observed by the oracle and carried by the C01 model']
     ctx.regen(GEN)
     ctx.prove()
@@ -323,7 +330,8 @@ def run(ctx):
         return ctx.finish(rule=RULE)
     triples = gen_cases(ctx, scale)
     have_model = ctx.stages.get('prove', {}).get('ok') and ctx.stages.get('regen', {}).get('ok') and ctx.extract()
-    groups = {'h4': ([t for t in triples if t[0] in (0, 4)], h4), 'h6': ([t for t in triples if t[0] == 6], h6)}
+    groups = {'h4': ([t for t in triples if t[0] in (0, 4)], h4), 'h6': ([t for t in triples if t[0] == 6], h6),
+              'h8': ([t for t in triples if t[0] == 8], ctx.h8)}
     if have_model:
         for gname, (ts, exe) in groups.items():
             mism, _ = ctx.correspond('translator-validation-' + gname, [t[1] for t in ts], [exe], [ctx.model_exe])
@@ -337,6 +345,7 @@ def run(ctx):
         ctx.log('a stage broke: searching the implementation for a failing input with the thorough generator')
         more = gen_cases(ctx, 4)
         groups['h4'][0].extend(t for t in more if t[0] in (0, 4)); groups['h6'][0].extend(t for t in more if t[0] == 6)
+        groups['h8'][0].extend(t for t in more if t[0] == 8)
     bad = []
     for gname, (ts, exe) in groups.items():
         rc, lines, err = run_real(ctx, exe, [t[1] for t in ts], 'oracle-' + gname)
@@ -348,9 +357,11 @@ def run(ctx):
                 t = next(x for x in ts if x[1] == c)
                 bad.append((c, out, why, t[0], t[2]))
     sets = set_cases(ctx, scale * (4 if broke else 1))
-    for exe, hc in ((h4, 4), (h6, 6)):
+    for exe, hc in ((h4, 4), (h6, 6), (ctx.h8, 8)):
         # one process per case: a crash (assert) is attributed to its case
         for c in sets:
+            if hc != 4 and not c.startswith('set p4'):
+                continue          # the pointer-width builds differ only in BucketLimP4
             rc, lines, err = run_real(ctx, exe, [c], 'set')
             ctx.evaluations += 1
             out = lines[0] if (rc == 0 and lines) else 'crash rc=%d %s' % (rc, err[-200:].replace('\n', ' '))
@@ -359,7 +370,7 @@ def run(ctx):
     ctx.stage('oracle', not bad, bad[0][2] if bad else '')
     for (c, out, why, hc, exp) in bad[:3]:
         ctx.violation(why, {'case': c, 'impl_output': out, 'hashCount': hc, 'expected': exp,
-                            'cmd': 'echo "%s" | build/C12/%s' % (c, 'harness48' if hc == 6 else 'harness')}, found_input=True)
+                            'cmd': 'echo "%s" | build/C12/%s' % (c, {6: 'harness48', 8: 'harness32'}.get(hc, 'harness'))}, found_input=True)
     allc = [t[1] for t in triples] + sets
     for c in allc[::max(1, len(allc) // 6)][:6]:
         ctx.add_sample(c[:300])
